@@ -974,7 +974,7 @@ static int ec_glob(char *loc, char *cmd, char *arg, char *txt)
 	for (i = beg + 1; i < end; i++)
 		lbuf_globset(xb, i, xgdep);
 	i = beg;
-	while (i < lbuf_len(xb)) {
+	while (beg >= 0 && beg < end && i < lbuf_len(xb)) {
 		char *ln = lbuf_get(xb, i);
 		if ((rstr_find(re, ln, LEN(offs) / 2, offs, 0) < 0) == not) {
 			xrow = i;
